@@ -47,7 +47,7 @@ func syncActive(g gor) bool {
 // openPeer connects a hostile peer with a valid status claiming td; no responder is attached.
 func (s *session) openPeer(name string, td uint64) *endpoint {
 	c := s.c
-	ep, ok := connect(s.pm, name, 0xE0, false)
+	ep, ok := connect(s.pm, name, 0xE0, true)
 	s.addEp(ep)
 	if !ok {
 		s.aborted = true
@@ -64,6 +64,7 @@ func (s *session) openPeer(name string, td uint64) *endpoint {
 	if o != delivered {
 		c.Failf("C15/honest-refused", "a peer with a valid status was dropped: %v", ep.res.err)
 	}
+	ep.answerEmpty()
 	return ep
 }
 
@@ -75,7 +76,12 @@ func (s *session) releaseHeld() {
 
 // awaitRest waits (barrier) until no synchronisation cycle and no import is running.
 func (s *session) awaitRest(what string) bool {
+	t0 := time.Now()
 	ok, g := waitNone(func(g gor) bool { return syncActive(g) || importing(g) })
+	s.c.R.Count("ms_await_rest", int(time.Since(t0).Milliseconds()))
+	if d := time.Since(t0); d > time.Second && os.Getenv("VERIF_C15_DEBUG") != "" {
+		fmt.Fprintf(os.Stderr, "C15 slow awaitRest (%s): %v\n%s\n", what, d, slowest)
+	}
 	if !ok {
 		s.aborted = true
 		inconclusive(s.c, what+": a synchronisation cycle / import is still running", g)
@@ -87,7 +93,7 @@ func afterSyncProp(c *pbt.C) {
 	tcase := time.Now()
 	defer func() { c.R.Count("ms_case", int(time.Since(tcase).Milliseconds())) }()
 	sh := world()
-	s := &session{c: c, sh: sh, validSet: map[uint64]bool{}, poolOK: map[types.Hash]bool{}, goodBlk: map[types.Hash]bool{}}
+	s := &session{c: c, sh: sh, validSet: map[uint64]bool{}, poolOK: map[types.Hash]bool{}, goodBlk: map[types.Hash]bool{}, t0: time.Now()}
 	s.seed = c.Uint64("seed", 0, 1<<32)
 	history := []string{"sync-completed", "sync-failed", "no-sync", "during-sync"}[c.Weighted("history", 5, 2, 2, 2)]
 	s.k = uint64(c.Int("followerHeight", 1, 9))
